@@ -46,6 +46,11 @@ enum Item {
     SetPortable(bool),
     /// a line using the `;;&` case terminator, which is a syntax error in portable mode
     PortableSensitive(u32, u32),
+    /// `set -m` / `set +m`
+    SetMonitor(bool),
+    /// a command reading its standard input inside an asynchronous list that is not under job
+    /// control: its standard input is /dev/null, the rest of the script stays with the shell
+    AsyncReader(u32, u8),
 }
 
 struct Rendered {
@@ -61,6 +66,7 @@ fn render(items: &[Item], with_reads: bool, with_pos: bool, syntax_error_at: Opt
     let mut expect: Vec<(String, Vec<String>)> = Vec::new();
     let mut noglob = false;
     let mut portable = false;
+    let mut monitor = false;
     let mut aliases: Vec<u32> = Vec::new();
     // a trailing `;` must not make the shell read ahead
     let mut semi_rng = Rng::new(items.len() as u64 * 31 + syntax_error_at.unwrap_or(0) as u64);
@@ -74,6 +80,42 @@ fn render(items: &[Item], with_reads: bool, with_pos: bool, syntax_error_at: Opt
             Item::SetPortable(b) => {
                 text.push_str(if *b { "set -o portable\n" } else { "set +o portable\n" });
                 portable = *b;
+            }
+            Item::SetMonitor(b) => {
+                text.push_str(if *b { "set -m\n" } else { "set +m\n" });
+                monitor = *b;
+            }
+            Item::AsyncReader(n, form) => {
+                // (with job control on, an asynchronous list of the main shell is a job of its own
+                // and keeps the standard input: only the forms inside a subshell are used then)
+                let form = if monitor && *form % 2 == 0 { form + 1 } else { *form };
+                let empty = vec!["0".to_string(), format!("{:016x}", fnv(b"")), "ok".to_string()];
+                match form % 6 {
+                    0 => {
+                        text.push_str(&format!("sink k{n} & wait{semi}\n"));
+                        expect.push((format!("k{n}"), empty));
+                    }
+                    1 => {
+                        text.push_str(&format!("( sink k{n} & wait ){semi}\n"));
+                        expect.push((format!("k{n}"), empty));
+                    }
+                    2 => {
+                        text.push_str(&format!("{{ read a; probe k{n} \"$a\"; }} & wait\n"));
+                        expect.push((format!("k{n}"), vec!["".into()]));
+                    }
+                    3 => {
+                        text.push_str(&format!("x=$(sink k{n} & wait){semi}\n"));
+                        expect.push((format!("k{n}"), empty));
+                    }
+                    4 => {
+                        text.push_str(&format!("relay & wait; probe k{n}\n"));
+                        expect.push((format!("k{n}"), vec![]));
+                    }
+                    _ => {
+                        text.push_str(&format!("( {{ read a; probe k{n} \"$a\"; }} & wait; ) | relay\n"));
+                        expect.push((format!("k{n}"), vec!["".into()]));
+                    }
+                }
             }
             Item::PortableSensitive(a, b) => {
                 text.push_str(&format!("case x in x) probe k{a} ;;& *) probe k{b} ;; esac\nprobe k9995\n"));
@@ -214,7 +256,9 @@ fn gen_items(rng: &mut Rng) -> Vec<Item> {
     let mut defs: Vec<u32> = Vec::new();
     let mut funcs: Vec<u32> = Vec::new();
     for _ in 0..n {
-        let it = match rng.below(26) {
+        let it = match rng.below(29) {
+            26 => Item::SetMonitor(rng.chance(60)),
+            27 | 28 => Item::AsyncReader(id(), rng.below(6) as u8),
             24 | 25 => Item::HereDocThenRead(id(), id(), (0..rng.range(0, 2)).map(|_| data(rng)).collect(), data(rng)),
             0 | 1 => Item::Probe(id()),
             2 => Item::Two(id(), id()),
